@@ -219,12 +219,16 @@ impl<'source, Token: Logos<'source>> Lexer<'source, Token> {
     /// Panics if adding `n` to current offset would place the `Lexer` beyond the last byte,
     /// or in the middle of an UTF-8 code point (does not apply when lexing raw `&[u8]`).
     pub fn bump(&mut self, n: usize) {
-        self.token_end += n;
+        // Validate the new end before storing it, so that neither an overflowing `n` nor
+        // a caught panic can leave the lexer with an out-of-range or mid-character span.
+        let token_end = self.token_end.checked_add(n);
 
         assert!(
-            self.source.is_boundary(self.token_end),
+            token_end.is_some_and(|end| self.source.is_boundary(end)),
             "Invalid Lexer bump",
-        )
+        );
+
+        self.token_end = token_end.unwrap_or(self.token_end);
     }
 }
 
